@@ -323,7 +323,7 @@ def run(tier, replay=None):
     classes = set()
     if not replay:
         scn_by_id = {}
-        for line in open(scn_path):
+        for line in open(scen_path):
             x = json.loads(line)
             scn_by_id[x["id"]] = x
         for o in results:
@@ -366,8 +366,13 @@ def run(tier, replay=None):
     with open(tcfg, "w") as f:
         f.write("SPECIFICATION TraceSpec\nCONSTANTS\n  Fronts = {\"h1\", \"h2\"}\n  Backs = {\"h1\", \"h2\"}\n  NReq = 2\n"
                 "  Framings = {\"cl\"}\n  Siblings = {}\n  Faults = {}\n  Timings = {\"bf\"}\n  Deviations = %s\n  Emit = FALSE\n"
-                "INVARIANTS TypeOK P_C02_StatusMatchesCause P_C02_NoTruncation P_C02_AnsweredUnlessStarted\n"
-                "CONSTRAINT Track\nPOSTCONDITION TraceAccepted\nCHECK_DEADLOCK FALSE\n" % tla_set(devs))
+                "INVARIANTS %s\n"
+                "CONSTRAINT Track\nPOSTCONDITION TraceAccepted\nCHECK_DEADLOCK FALSE\n" % (tla_set(devs),
+                    # with an open deviation switched on the search also walks through the deviating (property-violating)
+                    # continuations the spec then allows: the status / answered invariants would fire on candidates the
+                    # recorded run never took; the events themselves (status, completion, backend) still have to match
+                    "TypeOK P_C02_NoTruncation" if devs else
+                    "TypeOK P_C02_StatusMatchesCause P_C02_NoTruncation P_C02_AnsweredUnlessStarted"))
     if replay_trace:
         trace = replay_trace
     tv = vlib.tlc_trace("Trace_HttpExchange", tcfg, PID, trace, timeout=3000 if thorough else 900)
